@@ -42,6 +42,7 @@ pub fn main() -> ExitCode {
         Some("replay") => replay(&args),
         Some("minimise") => minimise::main(&args),
         Some("scenario") => scenario(&args),
+        Some("transcript") => transcript(&args),
         Some("selfcheck") => {
             outln!("{}", json!({"profile": profile_name(), "corpus": super::corpus::all().len()}));
             ExitCode::SUCCESS
@@ -223,4 +224,21 @@ fn replay(args: &[String]) -> ExitCode {
         );
         ExitCode::SUCCESS
     }
+}
+
+/// `sim transcript <replay.json>`: run a World A scenario and print the engine's output lines.
+pub fn transcript(args: &[String]) -> ExitCode {
+    let text = std::fs::read_to_string(&args[2]).expect("cannot read");
+    let file: ReplayFile = serde_json::from_str(&text).expect("cannot parse");
+    if let Scenario::A(sc) = &file.scenario {
+        let out = worlda::run_a(sc, false);
+        for l in &out.transcript {
+            outln!("{l}");
+        }
+        for f in &out.found {
+            outln!("FOUND {}: {}", f.class, f.message);
+        }
+        return ExitCode::SUCCESS;
+    }
+    ExitCode::from(2)
 }
